@@ -30,7 +30,8 @@ RULE = ("random cases: x class x y class x fixed-point layout (gaps>=2) x mode {
         " Round-6 classes: fixed-point indices as compact integer arrays (uint8 .. uint64) on series longer than the type's range, the exponent as numpy.float32 / float16 scalar."
         " Round-7 classes: the last fixed index exactly at a narrow index type's maximum (int8 127 / uint8 255); pure functions asked twice with the first answer edited in place (callform.TWICE_OK)."
         " Round-8 classes: the reference on the very grid of the input together with explicitly designated fixed points; first use of the library from several threads at once (fresh process, yields injected at library lines)."
-        " Round-9 classes: huge cases with two or three fixed points (ONE interval holding nearly all of 32 769..90 000 samples).")
+        " Round-9 classes: huge cases with two or three fixed points (ONE interval holding nearly all of 32 769..90 000 samples)."
+        " Round-10 classes: both axes as datetime64[s] arrays when they hold whole numbers (function route).")
 REQUIRED_MONITORS = ["threads:match", "threads:first_use:match", "threads:first_use_yields_injected", "c01:post"]
 ASSUMPTIONS = ["admissible inputs only: strictly increasing x, distinct fixed points one per matched reference point, "
                ">= 1 interior sample per interval (re-checked by the oracle; others are discarded and counted)"]
